@@ -15,7 +15,8 @@ trees:
   ['col', [b, s, c1, c2]]             whole columns (aggregator argument)
   ['name', i]                         defined name i (scalar if single cell, else like 'rng')
   ['bin', op, x, y]  ['neg', x]  ['fn', NAME, arg, ...]
-Functions: SUM MIN MAX COUNT AVERAGE IF IFERROR ISERROR ISNA AND OR LEN LEFT UPPER.
+  ['uni', a, b]                      bracketed union of two references as ONE aggregator argument
+Functions: SUM MIN MAX COUNT AVERAGE LARGE SMALL IF IFERROR ISERROR ISNA AND OR LEN LEFT UPPER INDEX.
 
 evaluate(spec, overrides) -> {(b, s, r, c): value} for every populated cell
 (spill cells of array formulas included); values are harness values or UNSURE
@@ -130,6 +131,8 @@ def flat_args(env, args):
             out += [(v, True) for row in env.rect_values(rect) for v in row]
         elif t == 'ref':
             out.append((env.get(a[1]), True))
+        elif t == 'uni':
+            out += flat_args(env, a[1:])  # a union of references: every area in turn (a cell in two areas counts twice)
         else:
             out.append((ev(env, a), False))
     return out
@@ -165,10 +168,24 @@ def aggregate(name, items):
         nums.append(v)
     if name == 'COUNT':
         return float(len(nums))
+    if name in ('LARGE', 'SMALL'):
+        return nums, errs
     if errs:
         if len({e.t for e in errs}) > 1:
             return UNSURE  # which of several errors wins is not asserted
         return errs[0]
+    if name in ('SUM', 'AVERAGE') and nums:
+        # beyond the double range the result is #NUM!; when only the order of summation decides, nothing is asserted
+        import math
+        naive = float(sum(nums))
+        try:
+            exact = math.fsum(nums)
+        except OverflowError:
+            return UNSURE
+        if math.isinf(naive) != math.isinf(exact) or math.isnan(naive):
+            return UNSURE
+        if math.isinf(naive):
+            return X.NUM
     if name == 'SUM':
         return float(sum(nums))
     if name == 'MIN':
@@ -256,6 +273,19 @@ def fn(env, name, args):
         if not all(isinstance(v, bool) for v in vals):
             return UNSURE
         return all(vals) if name == 'AND' else any(vals)
+    if name in ('LARGE', 'SMALL'):
+        # k-th largest / smallest number among the referenced cells (text, logicals, blanks skipped; errors propagate)
+        r = aggregate(name, flat_args(env, args[:1]))
+        if isinstance(r, Unsure):
+            return UNSURE
+        nums, errs = r
+        k = int(args[1][1])
+        bad_k = not (1 <= k <= len(nums))
+        if errs:
+            return UNSURE if (bad_k or len({e.t for e in errs}) > 1) else errs[0]
+        if bad_k:
+            return X.NUM
+        return float(sorted(nums, reverse=(name == 'LARGE'))[k - 1])
     if name == 'INDEX':
         # INDEX(<rectangle or name>, row, col): the cell at that position (a reference: a blank stays a blank reference)
         a = args[0]
@@ -364,6 +394,9 @@ def refs_of(t, names=None, acc=None):
         refs_of(t[3], names, acc)
     elif k == 'neg':
         refs_of(t[1], names, acc)
+    elif k == 'uni':
+        for a in t[1:]:
+            refs_of(a, names, acc)
     elif k == 'fn':
         for a in t[2:]:
             refs_of(a, names, acc)
